@@ -52,7 +52,10 @@ def gen_dep_cases(rng, n):
                 if ups:
                     j = rng.choice(ups)
                     emb = [["o", j]] + [e for e in emb if not (e[0] in ("o", "o.pre") and True)]
-            tasks.append({"cls": cls, "k": i * 1000 + c, "embeds": emb, "copy": rng.random() < 0.2})
+            tasks.append({"cls": cls, "k": i * 1000 + c, "embeds": emb, "copy": rng.random() < 0.2,
+                          # who adds the explicit dependencies: the user (add_dependencies) or a submit listener of the launcher
+                          # ("this allows the launcher to add token dependencies", launchers/__init__.py)
+                          "via": rng.choice(["add", "add", "listener"])})
         cases.append({"tasks": tasks})
     return cases
 
